@@ -15,23 +15,25 @@ import LccModel.Lemmas.FilteredViews
 namespace LccModel.C20Short
 open LccModel.Report LccModel.Writer LccModel.Views
 
-/-- Sentence 2 (statistics of a forest): whenever `ReportStats.from_suites` returns, every number of it is the count
-    over the tests of the forest (`flatten_tests(suites)`) — in-progress tests and tests without end time included. -/
-theorem from_suites_counts (parallelized : Bool) (ss : List SuiteResult) (st : Stats)
-    (h : statsFromSuites parallelized ss = .ok st) :
-    st.total = (forestTests ss).length ∧
-    st.passed = countStatus .passed (forestTests ss) ∧ st.failed = countStatus .failed (forestTests ss) ∧
-    st.skipped = countStatus .skipped (forestTests ss) ∧ st.disabled = countStatus .disabled (forestTests ss) :=
-  statsFromSuites_counts parallelized ss st h
+/-- Sentence 2 (statistics of a forest): every number of `ReportStats.from_suites` is the count over the tests of the
+    forest (`flatten_tests(suites)`) — in-progress tests and tests without end time included; the call is total
+    (`statsFromSuites` is a function: no forest makes it raise, repair D34). -/
+theorem from_suites_counts (ss : List SuiteResult) :
+    (statsFromSuites ss).total = (forestTests ss).length ∧
+    (statsFromSuites ss).passed = countStatus .passed (forestTests ss) ∧
+    (statsFromSuites ss).failed = countStatus .failed (forestTests ss) ∧
+    (statsFromSuites ss).skipped = countStatus .skipped (forestTests ss) ∧
+    (statsFromSuites ss).disabled = countStatus .disabled (forestTests ss) :=
+  statsFromSuites_counts ss
 
-/-- … and it raises exactly when the report is not parallelized and the duration `results[-1].end_time -
-    results[0].start_time` cannot be computed (no result at all, first result without start time, or LAST result
-    without end time: a run still in progress) -/
-theorem from_suites_raises_iff (parallelized : Bool) (ss : List SuiteResult) :
-    (∃ e, statsFromSuites parallelized ss = .error e) ↔
+/-- … and it knows a duration exactly when the report is not parallelized, the first result has a start time and the
+    LAST one an end time; otherwise (a run still in progress, an empty forest) the duration is `None` ("n/a") — the
+    situations in which the unrepaired code raised `TypeError` / `IndexError` (D34). -/
+theorem from_suites_duration_known_iff (parallelized : Bool) (ss : List SuiteResult) :
+    fromSuitesDurationKnown parallelized ss = true ↔
       parallelized = false ∧
-      ¬ ∃ a b, firstStart (flattenResults ss) = some (some a) ∧ lastEnd (flattenResults ss) = some (some b) :=
-  statsFromSuites_error_iff parallelized ss
+      ∃ a b, firstStart (flattenResults ss) = some (some a) ∧ lastEnd (flattenResults ss) = some (some b) :=
+  fromSuitesDurationKnown_iff parallelized ss
 
 /-- the filtered report holds exactly the tests of the report that the filter accepts, in `all_tests` order of the
     sorted accessors, each with the path of its suite; suites left empty are dropped and contribute nothing -/
@@ -45,16 +47,15 @@ theorem filtered_results_are_results (f : RFilter) (parent : Path) (ss : List Su
     (h : a ∈ flattenResults (filterSuiteList f parent ss)) : a ∈ flattenResults ss :=
   filtered_results_sub f parent ss a h
 
-/-- `lcc report --short [filter]` displays exactly the tests of the report the filter accepts (all of them without a
-    filter) … -/
-theorem short_report_lines (r : Report) (filt : Option RFilter) (v : ShortView) (h : shortReport r filt = .ok v) :
-    v.lines = (testsWithSuitePath [] (view r)).filter (fun pt => (filt.getD RFilter.all).test pt.1 pt.2) :=
-  shortReport_lines r filt v h
+/-- `lcc report --short [filter]` (a total function of the report and the filter: finished or not, no report makes it
+    raise) displays exactly the tests of the report the filter accepts (all of them without a filter) … -/
+theorem short_report_lines (r : Report) (filt : Option RFilter) :
+    (shortReport r filt).lines = (testsWithSuitePath [] (view r)).filter (fun pt => (filt.getD RFilter.all).test pt.1 pt.2) :=
+  shortReport_lines r filt
 
 /-- … which, without a filter, are the tests of `Report.all_tests()` (up to the order of the top-level suites) -/
-theorem short_report_unfiltered_lines (r : Report) (v : ShortView) (h : shortReport r none = .ok v) :
-    (v.lines.map Prod.snd).Perm (allTests r) := by
-  rw [shortReport_lines r none v h]
+theorem short_report_unfiltered_lines (r : Report) : ((shortReport r none).lines.map Prod.snd).Perm (allTests r) := by
+  rw [shortReport_lines r none]
   simp only [Option.getD_none, filter_all, testsWithSuitePath_snd]
   exact view_tests_perm r
 
@@ -62,59 +63,22 @@ theorem short_report_unfiltered_lines (r : Report) (v : ShortView) (h : shortRep
     exactly the tests displayed above it: Tests = number of lines, Successes / Failures = lines of passed / failed
     tests, Skipped / Disabled printed iff non-zero with those counts.  Tests in progress are lines and are counted in
     Tests. -/
-theorem short_report_summary_counts_displayed_tests (r : Report) (filt : Option RFilter) (v : ShortView)
-    (h : shortReport r filt = .ok v) (sm : Summary) (hs : v.summary = some sm) :
-    sm.tests = v.lines.length ∧ sm.successes = countStatus .passed (v.lines.map Prod.snd) ∧
-    sm.failures = countStatus .failed (v.lines.map Prod.snd) ∧
-    sm.skipped = nonZero (countStatus .skipped (v.lines.map Prod.snd)) ∧
-    sm.disabled = nonZero (countStatus .disabled (v.lines.map Prod.snd)) :=
-  shortReport_summary r filt v h sm hs
+theorem short_report_summary_counts_displayed_tests (r : Report) (filt : Option RFilter) (sm : Summary)
+    (hs : (shortReport r filt).summary = some sm) :
+    sm.tests = (shortReport r filt).lines.length ∧
+    sm.successes = countStatus .passed ((shortReport r filt).lines.map Prod.snd) ∧
+    sm.failures = countStatus .failed ((shortReport r filt).lines.map Prod.snd) ∧
+    sm.skipped = nonZero (countStatus .skipped ((shortReport r filt).lines.map Prod.snd)) ∧
+    sm.disabled = nonZero (countStatus .disabled ((shortReport r filt).lines.map Prod.snd)) :=
+  shortReport_summary r filt sm hs
 
-/-- the summary is missing ("No test found or no matching test in the report") iff no test is displayed -/
-theorem short_report_no_summary_iff (r : Report) (filt : Option RFilter) (v : ShortView) (h : shortReport r filt = .ok v) :
-    v.summary = none ↔ v.lines = [] :=
-  shortReport_no_summary_iff r filt v h
+/-- the summary is missing ("No test found or no matching test in the report") iff no test is displayed: whenever
+    at least one test is displayed — on EVERY report as in C09, unfinished ones included — the summary is printed -/
+theorem short_report_no_summary_iff (r : Report) (filt : Option RFilter) :
+    (shortReport r filt).summary = none ↔ (shortReport r filt).lines = [] :=
+  shortReport_no_summary_iff r filt
 
-/-- `_partial` (guard = every result of the report has a start and an end time, or the report is parallelized):
-    `lcc report --short [filter]` then always produces its view.
-    Full-strength statement (every report as in C09, unfinished ones included) is false:
-    `short_report_in_progress_raises`. -/
-theorem short_report_total_partial (r : Report) (filt : Option RFilter)
-    (hg : parallelized r = true ∨ allTimed (flattenResults (view r))) : ∃ v, shortReport r filt = .ok v := by
-  cases hres : shortReport r filt with
-  | ok v => exact ⟨v, rfl⟩
-  | error e =>
-    exfalso
-    unfold shortReport at hres
-    simp only at hres
-    split at hres
-    · cases hres
-    · rename_i hemp
-      split at hres
-      · cases hres
-      · rename_i f
-        split at hres
-        · cases hres
-        · rename_i e' he
-          have hne : flattenResults (filterSuiteList f [] (view r)) ≠ [] := by
-            intro hnil
-            apply hemp
-            rw [shown_empty_iff]
-            have ht : (flattenResults (filterSuiteList f [] (view r))).filterMap anyIsTest = [] := by rw [hnil]; rfl
-            rw [tests_of_results] at ht
-            have : (testsWithSuitePath [] (filterSuiteList f [] (view r))).map Prod.snd = [] := by
-              rw [testsWithSuitePath_snd]; exact ht
-            exact List.map_eq_nil_iff.mp this
-          rcases hg with hp | ht
-          · have := (statsFromSuites_error_iff (parallelized r) _).mp ⟨e', he⟩
-            rw [hp] at this; cases this.1
-          · have ht' : allTimed (flattenResults (filterSuiteList f [] (view r))) :=
-              fun a ha => ht a (filtered_results_sub f [] (view r) a ha)
-            obtain ⟨st, hst⟩ := statsFromSuites_ok_of_timed (parallelized r) _ hne ht'
-            simp only [Option.getD_some] at he
-            rw [hst] at he; cases he
-
-/-! ### non-vacuity and refutation -/
+/-! ### non-vacuity; the witness of D34 -/
 
 def md (name : String) : Meta := { name := name, description := "", tags := [], properties := [], links := [], rank := 0 }
 
@@ -137,46 +101,35 @@ def shopOnly : RFilter := { test := fun p _ => p == ["shop"], phase := fun p _ _
 /-- `--passed` as decisions -/
 def passedOnly : RFilter := { test := fun _ t => t.result.status == some .passed, phase := fun _ _ r => r.status == some .passed }
 
-def viewOf (r : Report) (f : Option RFilter) : Option (List (String × Option Status) × Option Summary) :=
-  match shortReport r f with
-  | .ok v => some (v.lines.map (fun pt => (pt.2.md.name, pt.2.result.status)), v.summary)
-  | .error _ => none
+def viewOf (r : Report) (f : Option RFilter) : List (String × Option Status) × Option Summary × Bool :=
+  let v := shortReport r f
+  (v.lines.map (fun pt => (pt.2.md.name, pt.2.result.status)), v.summary, v.durationKnown)
 
-/-- without a filter the in-progress test is displayed and counted (Tests: 4) -/
+/-- without a filter the in-progress test is displayed and counted (Tests: 4); the run has no end: duration n/a -/
 example : viewOf unfinished none =
-    some ([("login", some .passed), ("search", some .failed), ("checkout", none), ("signup", some .passed)],
-          some { tests := 4, successes := 2, failures := 1, skipped := none, disabled := none }) := by decide
+    ([("login", some .passed), ("search", some .failed), ("checkout", none), ("signup", some .passed)],
+     some { tests := 4, successes := 2, failures := 1, skipped := none, disabled := none }, false) := by decide
 
-/-- a filter that drops the in-progress test: the summary counts the two remaining lines -/
+/-- a filter that drops the in-progress test: the summary counts the two remaining lines, the duration is known -/
 example : viewOf unfinished (some passedOnly) =
-    some ([("login", some .passed), ("signup", some .passed)],
-          some { tests := 2, successes := 2, failures := 0, skipped := none, disabled := none }) := by decide
+    ([("login", some .passed), ("signup", some .passed)],
+     some { tests := 2, successes := 2, failures := 0, skipped := none, disabled := none }, true) := by decide
 
 /-- the same report from a parallelized run: the filtered summary counts the in-progress test (Tests: 3) -/
 example : viewOf { unfinished with nbThreads := 2 } (some shopOnly) =
-    some ([("login", some .passed), ("search", some .failed), ("checkout", none)],
-          some { tests := 3, successes := 1, failures := 1, skipped := none, disabled := none }) := by decide
+    ([("login", some .passed), ("search", some .failed), ("checkout", none)],
+     some { tests := 3, successes := 1, failures := 1, skipped := none, disabled := none }, false) := by decide
 
-/-- D34 (`C20/short-report/in-progress-raises`): on a sequential report whose last kept result is still in progress,
-    `lcc report --short <filter>` raises `TypeError` (`None - float` in `ReportStats.from_suites`) instead of
-    printing the summary of the three displayed tests; `ReportStats.from_suites(report.get_suites(), False)` raises
-    likewise, while the unfiltered view of the same report is fine. -/
-theorem short_report_in_progress_raises :
-    (match shortReport unfinished (some shopOnly) with
-     | .error .noneTime => true
-     | _ => false) = true ∧
-    (match statsFromSuites false (filterSuiteList shopOnly [] (view unfinished)) with
-     | .error .noneTime => true
-     | _ => false) = true ∧
-    (viewOf unfinished none).isSome = true := by decide
-
-/-- the guard of `short_report_total_partial` is met by the finished version of the report -/
-example : allTimed (flattenResults (view { unfinished with suites := [.mk (md "account") (some 7) (some 9) none none [done "signup" 7 8 .passed] []] })) := by
-  intro a ha
-  simp only [view, sortDeepList, sortDeep, sortByRank, insertByRank, flattenResults, flattenSuites, flattenSuite,
-    List.flatMap_cons, List.flatMap_nil, List.append_nil, optPhase, SuiteResult.setup, SuiteResult.tests,
-    SuiteResult.teardown, List.map, List.nil_append, List.mem_singleton] at ha
-  subst ha
-  exact ⟨rfl, rfl⟩
+/-- The witness of D34 (`C20/stats/from-suites-in-progress-raises`, repaired): on a sequential report whose last kept
+    result is still in progress, `lcc report --short <filter>` prints the summary of the three displayed tests —
+    the in-progress one counted in Tests — with the duration "n/a" (the unrepaired `ReportStats.from_suites` raised
+    `TypeError` on `None - float` here), and `from_suites` on the filtered forest counts 3 tests. -/
+theorem short_report_in_progress_counted :
+    viewOf unfinished (some shopOnly) =
+      ([("login", some .passed), ("search", some .failed), ("checkout", none)],
+       some { tests := 3, successes := 1, failures := 1, skipped := none, disabled := none }, false) ∧
+    (statsFromSuites (filterSuiteList shopOnly [] (view unfinished))).total = 3 ∧
+    fromSuitesDurationKnown false (filterSuiteList shopOnly [] (view unfinished)) = false ∧
+    fromSuitesDurationKnown false [] = false := by decide
 
 end LccModel.C20Short
